@@ -1086,7 +1086,9 @@ class UDFTimestamp:
 
         local = time.localtime(date_seconds)
 
-        self.tz = utils.gmtoffset_from_tm(date_seconds, local)
+        # gmtoffset_from_tm() gives the offset in 15 minute intervals, while
+        # the UDF timestamp stores it in minutes.
+        self.tz = utils.gmtoffset_from_tm(date_seconds, local) * 15
         # FIXME: for the timetype, 0 is UTC, 1 is local, 2 is 'agreement'.
         # let the user set this.
         self.timetype = 1
